@@ -133,6 +133,41 @@ def check(res, lengths, variant, grid_rot=0):
                 res.fail("C16:getitem", f"after update_self_config collection[{i}] is no longer element {i} of the concatenation", {**inp, "index": i}, None)
         except Exception as e:  # noqa: BLE001
             res.fail("C16:getitem", f"after update_self_config collection[{i}] raised {type(e).__name__}: {e}", {**inp, "index": i}, repr(e))
+    if variant in ("shared", "copies"):
+        check_after_change(res, coll, concat, lengths, inp)
+
+
+def check_after_change(res, coll, concat, lengths, inp):
+    """multi-step history: the collection has been indexed and its flattened list has been read; now one member is replaced by a shorter
+    dataset (what filtering a member does) and update_self_config() is called - everything must agree with the NEW concatenation"""
+    from maze_dataset.dataset.maze_dataset import MazeDataset
+
+    ks = [k for k, n in enumerate(lengths) if n > 0]
+    if not ks:
+        return
+    for k, drop in ((ks[0], 1), (ks[-1], lengths[ks[-1]])):
+        old = coll.maze_datasets[k]
+        keep = list(old.mazes[drop:])
+        coll.maze_datasets[k] = MazeDataset(old.cfg, mazes=keep)
+        start = sum(len(d) for d in coll.maze_datasets[:k])
+        concat = concat[:start] + keep + concat[start + len(old.mazes):]
+        lengths = [len(d) for d in coll.maze_datasets]
+        step = {**inp, "then": f"member {k} loses its first {drop} maze(s); update_self_config()"}
+        try:
+            coll.update_self_config()
+            total = len(concat)
+            facts = {"len": len(coll), "dataset_lengths": [int(x) for x in coll.dataset_lengths], "cum": [int(x) for x in coll.dataset_cum_lengths],
+                     "n_mazes": int(coll.cfg.n_mazes), "len(mazes)": len(coll.mazes)}
+            want = {"len": total, "dataset_lengths": lengths, "cum": list(itertools.accumulate(lengths)), "n_mazes": total, "len(mazes)": total}
+            if facts != want:
+                res.fail("C16:after-member-change:counts", f"after a member changed and update_self_config(): {facts}, expected {want}", step, facts)
+            for i in range(total):
+                if coll[i] is not concat[i] or coll.mazes[i] is not concat[i]:
+                    res.fail("C16:after-member-change:items", f"after a member changed and update_self_config(): item {i} is not element {i} of the new concatenation", {**step, "index": i}, None)
+                    break
+        except Exception as e:  # noqa: BLE001
+            res.fail("C16:after-member-change:raised", f"after a member changed and update_self_config(): {type(e).__name__}: {e}", step, repr(e))
+            return
 
 
 def run(tier, seed):
@@ -143,7 +178,8 @@ def run(tier, seed):
         "C16.collection-is-concatenation",
         rule=f"every vector of member lengths over {{0,1,2,3}} of length 1..{max_len} (zeros anywhere, repeated zeros), neighbouring members of different grid size, "
         "x 4 ways the member configs relate to the listed configs (same objects / equal copies, declared counts right / stale); "
-        "every index 0<=i<len compared by object identity with the Python concatenation of the member lists; non-trivial = at least one maze; "
+        "every index 0<=i<len compared by object identity with the Python concatenation of the member lists; then (multi-step) a member is replaced by a shorter / empty dataset, "
+        "update_self_config() is called and everything is compared with the new concatenation; non-trivial = at least one maze; "
         "distinct by (lengths, variant)",
         exhaustive=True,
         functions=["MazeDatasetCollection.__getitem__", "MazeDatasetCollection.mazes", "MazeDatasetCollection.__len__", "MazeDatasetCollection.dataset_lengths", "MazeDatasetCollection.dataset_cum_lengths", "MazeDatasetCollection.update_self_config", "MazeDatasetCollectionConfig.n_mazes"],
